@@ -60,7 +60,7 @@ func (c14) Batches(tier string, seed int64) int { return len(configs(tier)) }
 // corpus: every operator, both range kinds, open bounds, lists, patterns, prefixes, default field.
 func corpus(r *rand.Rand) []string {
 	qs := []string{
-		"a", "a:b", "a:5", "a:-2.5", `a:"it's"`, "a:b*", "a:?x*", "a:foo*bar?baz", "title:intro*duction?", "longpattern*?", "a:/re+/", "a:>5", "a:>=5", "a:<0.5", "a:<=-4", "a:[1 TO 5]", "a:{1 TO 5}", "a:[* TO 5]", "a:{2 TO *}",
+		"a", "a:b", "a:5", "a:-2.5", `a:"it's"`, `name:"o'neil"`, "a:'b'", `t:"it's" AND u:"x'y'z"`, `name:"o'neil" AND NOT title:'x y'`, "a:b*", "a:?x*", "a:foo*bar?baz", "title:intro*duction?", "longpattern*?", "a:/re+/", "a:>5", "a:>=5", "a:<0.5", "a:<=-4", "a:[1 TO 5]", "a:{1 TO 5}", "a:[* TO 5]", "a:{2 TO *}",
 		"a:[1.5 TO 2.5]", "a:[aa TO zz]", "a:(x OR y OR z)", "a:(x OR x OR y)", "a:(1 OR 2 OR 1 OR 3)", "a:(x OR y OR x)", "a:[5 TO 5]", "g:(x OR y OR z*)", "a:/C:\\\\/", "a:(1 OR 2.5 OR \"z z\")", "NOT a:b", "+a:b", "-a:b", "a~", "a~2", "a^", "a^2.5", "a:b AND c:d", "a:b OR c:d", "a:b c:d e:f",
 		"(a:foo OR b:bar) AND c:baz", "a OR b AND c:[* TO -1] OR d AND NOT +e:f", `title:"The Right Way" AND go`, "x (y OR z*) -w", "a:b^2 AND foo~", `foo\ bar:b`, `a:\(1\+1\)\:2`,
 		"(a AND b", "a:[1 TO", `a:"unterminated`, "a:!", "", "AND", `f"q:b`, strings.Repeat("z", 70) + ":b", "a:\x00", "a:\xff",
@@ -314,6 +314,9 @@ func (c14) RunBatch(ctx *core.Ctx, batch int) {
 	perG := 400
 	if cfg.goroutines >= 64 {
 		perG = 120
+	}
+	if ctx.Thorough() {
+		perG *= 3
 	}
 	results := make([][]rec, cfg.goroutines)
 	start := make(chan struct{})
